@@ -577,7 +577,6 @@ class AbstractRowWriter(object):
         raise NotImplementedError
 
     def write_rows(self, rows_to_write):
-        assert self.target_stream is not None
         assert rows_to_write is not None
 
         for row_to_write in rows_to_write:
